@@ -6,341 +6,400 @@ import os
 HERE = os.path.dirname(os.path.abspath(__file__))
 ROOT = os.path.dirname(HERE)
 
+TB = ("Trusted base (DESIGN.md section 6): Coq 8.16.1 kernel, vm_compute only (no native_compute), no axioms (every "
+      "theorem prints 'Closed under the global context'); tools/gen_consts.py (AST -> Gen/Consts.v); extraction with "
+      "ExtrOcamlBasic + ExtrOcamlString only and rocq/ocaml/driver.ml, cross-checked against vm_compute on a sample of "
+      "every run; the Python harness (generators, canonicaliser, ratio-printing shim, oracle written from the property "
+      "text); rdflib where named.  ")
+
 CLAIMED = {
     "C01": {
-        "text": "Machine-checked proofs (Coq 8.16.1, closed under the global context) about the executable model of the "
-                "extraction pipeline (tracker, profiler, shexing, ShExC serialiser), for ALL graphs and configurations: "
-                "the class profile holds exactly the declarative counts occ/class_count of Spec/Counts.v (Props/P1.v), and "
-                "every figure of the output (header, constraint lines, comments, direct and inverse, whatever the "
-                "threshold and switches) is the count of one profile entry of the same direction, property, kind and "
-                "original cardinality, or -- for the merged NONLITERAL alternative only -- the sum of two entries "
-                "(Props/C01.v, Props/ShexStage.v); binary64 ratios of n <= N never exceed 1.  The model is tied to "
-                "/repo on every run: its ShExC text equals the real Shaper's byte for byte on every generated case and "
-                "the property's projection (all figures) is compared; an independent oracle recomputes every printed "
-                "figure from the abstract triples.",
-        "design": "DESIGN.md sections 0a, 7 (C01), 11",
-        "note": "Trusted: Coq kernel; gen_consts.py; extraction (ExtrOcamlBasic, ExtrOcamlString) cross-checked against "
-                "vm_compute; Lib/Bin64 software binary64 validated against CPython; the harness (generator, canonicaliser, "
-                "ratio-printing shim).  The statement is false for the NONLITERAL merge and for classes sharing a local "
-                "name: refuted lemmas + findings C01-F1..F3.  Input through the N-Triples reader (C06's subject).",
+        "text": "Coq theorems, closed under the global context, about the executable model of the extraction pipeline "
+                "(tracker, profiler, shexing, ShExC serialiser), for ALL graphs, configurations, thresholds and both "
+                "frequency algebras: the class profile holds exactly the declarative counts occ / class_count of "
+                "Spec/Counts.v (Props/P1.v); the header count of every shape is the class count of the tracker's "
+                "dictionary (C01_header_counts_exact, C01_header_is_number_of_instances); every constraint line and "
+                "every comment carries the count, probability and ORIGINAL cardinality of one declarative count, or -- "
+                "for the merged NONLITERAL alternative only -- the sum of two (C01_figures_exact, C01_fig_occ_cases, "
+                "C01_line_exact, C01_comment_exact); binary64 ratios never exceed 1 (C01_ratio_at_most_one_e2e); the same "
+                "for shape-map runs (C01_map_figures_exact).  Tied to /repo on every run: the model's ShExC text equals "
+                "the real Shaper's byte for byte on every generated case (class mode and shape maps), all printed "
+                "figures are compared, and an independent recount recomputes every figure from the abstract triples.",
+        "design": "DESIGN.md sections 0a, 6, 11 (C01)",
+        "note": TB + "Partial: the NONLITERAL figure is a sum (C01_nonliteral_overlap_refuted, "
+                "C01_nonliteral_mixed_cards_refuted: findings C01-F1, C01-F3, known) and classes sharing a local name "
+                "share a label (C01_shared_label_refuted: C01-F2, known).  The decimal rendering of a ratio is the shim. "
+                "Input is delivered through the N-Triples reader (C06's subject).",
         "technique": "Coq proof by induction over folds / dictionaries (profile = declarative counts; figures = profile "
-                     "entries) + byte-exact differential correspondence of the extracted model + recount oracle",
+                     "entries), composed end to end; byte-exact differential correspondence of the extracted model; "
+                     "recount oracle",
     },
     "C02": {
-        "text": "Machine-checked proofs for ALL profiles, thresholds and switch settings that the shexing stage keeps a "
-                "(direction, property, value class) key iff some candidate of that key reaches the threshold -- with "
-                "CPython's binary64 comparison iff the LARGEST count of the key does (boundary kept) --, never keeps a key "
-                "twice, and yields one shape per class key of the profile with the class count (Props/C02.v); with "
-                "Props/P1.v the counts are those of the data.  Tied to /repo by the byte-exact correspondence of the "
-                "extracted model; an independent exact-rational oracle recomputes every key set from the triples.",
-        "design": "DESIGN.md sections 0a, 7 (C02), 11",
-        "note": "Trusted base as C01.  For value class 'nonliteral' the largest candidate count is the union count only "
-                "when the instances with an IRI value and those with a BNode value are nested: refuted otherwise "
-                "(C02_split_nonliteral_refuted, finding C02-F1).  With remove_empty_shapes only the soundness direction "
-                "is proved (C02_keys_remove_partial).",
-        "technique": "Coq proof (selection invariants of the two merge loops, monotone binary64 ratio) + differential "
-                     "correspondence + exact-rational recount oracle on every k/n threshold boundary",
+        "text": "Coq theorems for ALL graphs, thresholds and switch settings: with empty shapes kept a shape has the key "
+                "(direction, property, value class) iff some declarative count of that key reaches the threshold, no key "
+                "twice, one shape per class key in order (C02_keys_iff_occ, C02_one_shape_per_class_keep); with CPython's "
+                "binary64 comparison iff the LARGEST count does, so the boundary is kept (C02_keys_max_e2e); with "
+                "remove_empty_shapes on, thresholds <= 1 and ordinary class IRIs the same iff up to type keys that are "
+                "removed classes (C02_keys_iff_occ_remove, C02_keys_iff_occ_remove_all_classes, "
+                "C02_one_shape_per_class_remove); for the value class 'non-literal' the key is present iff thr <= "
+                "(#instances with an IRI or blank-node value)/N whenever the two kinds are nested (C02_keys_iff_union, "
+                "C02_keys_iff_union_remove); shape-map runs: C02_map_keys_iff_occ, C02_map_keys_remove.  Tied to /repo "
+                "by the byte-exact correspondence and an exact-rational oracle recomputing every key set on every k/n "
+                "threshold boundary.",
+        "design": "DESIGN.md sections 0a, 6, 11 (C02)",
+        "note": TB + "Partial: without nestedness only an inequality holds and the union reading is refuted "
+                "(C02_split_nonliteral_refuted: C02-F1, known); a requested class that is also a value of the "
+                "instantiation property loses a key (C02_remove_dead_key_refuted: C02-F3, known); shape maps with "
+                "remove_empty_shapes: soundness only.  Fixed in /repo: C02-F2 (a3b99df, "
+                "C02_removed_reference_run_fixed).",
+        "technique": "Coq proof (selection invariants of the two merge loops, monotone binary64 ratio, input-level "
+                     "discharge of the cleaning hypotheses) + differential correspondence + exact-rational recount oracle",
     },
     "C03": {
-        "text": "Machine-checked proofs about the validated pipeline model (all closed under the global context): "
-                "switching all_instances_are_compliant_mode off never changes a cardinality and never yields ?/* "
-                "(C03_mode_off_keeps_cards, C03_mode_on_off); with keep_less_specific a '?' constraint comes from a "
-                "{1} candidate that tied with its '+' sibling, so no instance has two matching values "
-                "(C03_relaxed_card_sound, C03_opt_at_most_one); every output cardinality holds on every instance "
-                "(C03_cardinalities, exact and binary64); and on the property's strict domain the instance typing is a "
-                "valid typing of the extracted schema under the ShEx semantics of Spec/ShexSem.v "
-                "(C03_conformance_partial: the profile characterisation is a premise that the check evaluates on every "
-                "input).  The ORACLE on the real ShExC text is the EXTRACTED Coq semantics (valid_typingb), judging "
-                "every (instance, shape) pair; the real output is corresponded with the model's on both mode settings.",
-        "design": "DESIGN.md sections 0a, 7 (C03), 11",
-        "note": "Outside strict_domb three root causes break the guarantee (findings C03-F1..F3, refuted lemmas).  "
-                "Disjunctions, target-class mode, instance cap, custom shapes namespace are outside the domain.  "
-                "Trusted base as C01 + the ShExC canonicaliser that feeds the extracted validator.",
-        "technique": "Coq theorems about the pipeline model; ShEx semantics written as a decidable Spec and extracted to "
-                     "OCaml as the oracle on real output; differential correspondence on the full canonical structure",
+        "text": "Coq theorems about the validated pipeline model: switching all_instances_are_compliant_mode off never "
+                "changes a cardinality and yields no ?/* (C03_mode_off_keeps_cards, C03_mode_on_off); under "
+                "keep_less_specific a '?' comes from a {1} candidate that tied with its '+' sibling "
+                "(C03_relaxed_card_sound, C03_opt_at_most_one, C03_cardinalities); and CONFORMANCE with no premise left: "
+                "for every graph of the property's strict domain (strict_domb) and every configuration with "
+                "keep_less_specific, all-compliant mode, no disjunctions, all-classes mode, no cap, default shapes "
+                "namespace, threshold 0 and ANY value of the other options, the instance typing is a valid typing of the "
+                "extracted schema under the ShEx semantics of Spec/ShexSem.v (C03_conformance for binary64 and fewer "
+                "than 2^53 triples, C03_conformance_exact unbounded; C03_conformance_partial keeps the premise form for "
+                "target classes / caps).  The ORACLE on the real ShExC text is the EXTRACTED Coq validator "
+                "(valid_typingb), judging every (instance, shape) pair; both mode settings are corresponded.",
+        "design": "DESIGN.md sections 0a, 6, 11 (C03)",
+        "note": TB + "Outside strict_domb the guarantee is false: C03_reference_tie_refuted, "
+                "C03_nonliteral_overlap_refuted, C03_keep_less_specific_false_refuted (findings C03-F1, C03-F2, C03-F3, "
+                "known).  Disjunctions and thresholds other than 0 are outside the domain.  Also trusted: the ShExC "
+                "canonicaliser that feeds the extracted validator.",
+        "technique": "Coq theorems about the pipeline model composed with P1; ShEx semantics written as a decidable Spec "
+                     "and extracted to OCaml as the oracle on real output; differential correspondence",
     },
     "C04": {
-        "text": "Machine-checked proof that the shexing stage of the model -- in which every unguarded dereference, "
-                "index, key lookup and raise of the Python code is an explicit error outcome -- returns a result for "
-                "ALL profiles, counts, thresholds and switch settings with disjunctions disabled (default) whenever the "
-                "profile's type keys are renderable, plus the exact characterisation of the only failures of "
-                "tune_token and of the empty-shape cleaning loop (Props/C04.v).  Tied to /repo by comparing the "
-                "outcome (result / exception class) of the real shex_graph with the model's on C01's graphs and "
-                "adversarial mixes; SHACL output and profile_graph are exercised on the implementation only.",
-        "design": "DESIGN.md sections 0a, 7 (C04), 11",
-        "note": "Trusted base as C01.  Not modelled (observed only): SHACL serialisation crashes, profile_graph, input "
-                "readers other than N-Triples.  Five crashes found this way were repaired in /repo (fix: commits, "
-                "known_findings.json status fixed).",
-        "technique": "Coq totality proof over an error-explicit model + differential outcome correspondence + crash "
-                     "search over adversarial graphs x configurations x {ShExC, SHACL, profile_graph}",
+        "text": "Coq theorems about a model in which every unguarded dereference, index, key lookup and raise of the "
+                "modelled Python code is an explicit error outcome: for every input satisfying valid_input (typing "
+                "triples have node objects, no string starts with the shape sentinel, disjunctions disabled or empty "
+                "shapes kept, a priority prefix free) the whole run -- tracker, profiler, shexing, serialiser -- yields "
+                "shapes and text for every frequency algebra, threshold and value of the other options (C04_run_total, "
+                "C04_run_shexc_total), for ANY options with binary64 and thresholds <= 1 "
+                "(C04_run_shexc_total_any_options), and every error outcome violates one of the conditions "
+                "(C04_errors_characterised, C04_text_errors_characterised); shape-map runs: "
+                "C04_map_errors_characterised, C04_map_run_total_tokens.  Tied to /repo by comparing the outcome "
+                "(result / exception class) of the real shex_graph with the model's on adversarial graphs and shape "
+                "maps; SHACL output and profile_graph (string and file sinks) are exercised under a crash oracle.",
+        "design": "DESIGN.md sections 0a, 6, 11 (C04)",
+        "note": TB + "Observed only, not modelled: profile_graph, SHACL output of shape-map runs.  Known: C04-F2 (SHACL "
+                "output of any shape-map extraction raises; the repair 72d68cb of C10 extended this crash to prefixed "
+                "labels; repair in preparation, notes/proposed_fixes/C04-shacl-target-class-corners.diff).  Fixed in "
+                "/repo: C04-X-bfff754, C04-X-875505f, C04-X-6f5760d, C04-X-19ce196, C04-F1 (a3b99df, "
+                "C04_choice_prune_run_fixed).",
+        "technique": "Coq totality proof over an error-explicit model, composed end to end + differential outcome "
+                     "correspondence + crash search over adversarial graphs x configurations x output kinds",
     },
     "C05": {
-        "text": "Machine-checked proof (Coq 8.16.1, closed under the global context) that every ShExC text the validated "
-                "serialiser model prints on C05_dom is accepted by a lexer + automaton recogniser written from the ShEx "
-                "2.1 grammar (C05_document_recognised) and, given a reference-closed shape list with distinct labels, has "
-                "a functional prefix map, only declared prefixes, distinct labels and resolving references "
-                "(C05_closed_text, C05_wellformed_closed_partial); reference closure and label distinctness of the shape "
-                "list after empty-shape removal are proved in Props/C05refs.v for the default shapes namespace and "
-                "injective labels.  The model's text equals the real Shaper's byte for byte, and the EXTRACTED "
-                "recogniser and closure checks run on every real output (incl. reference chains through shape maps); "
-                "SHACL output is parsed with rdflib and checked for sh:node / path closure.",
-        "design": "DESIGN.md sections 0a, 7 (C05), 11",
-        "note": "Partial: SHACL is oracle-only (not modelled); C05_dom of the shape list is monitored at run time by the "
-                "model binary rather than derived from graph-level premises; the random-prefix fallback is outside the "
-                "model.  Findings C05-F1 (custom shapes_namespace: dangling references, pinned by golden files), C05-F2 "
-                "(shared local names: duplicate labels), C05-F3 (parsed prefix collision).  Trusted: the Spec recogniser "
-                "(a subset of the grammar, keywords case-insensitive).",
-        "technique": "Coq: state-machine lexer and parser automaton compositional over ++, per-line token lemmas, closure "
-                     "invariant of the cleaning loop; byte-exact text correspondence; extracted-Spec oracle on real output",
+        "text": "Coq theorems: from a boolean condition on the input alone (c05_input_ok: default shapes namespace, "
+                "class IRIs with distinct labels and PN_LOCAL local names, a user dictionary leaving a priority prefix "
+                "free) the run succeeds and its ShExC text is accepted by a recogniser written from the ShEx 2.1 grammar, "
+                "has a functional prefix map, only declared prefixes, distinct labels and resolving references, for "
+                "every frequency algebra and threshold (C05_run_wellformed; any options for thresholds <= 1: "
+                "C05_run_wellformed_any_options); the empty-shape cleaning preserves closure (Props/C05refs.v); the "
+                "SHACL output, as the abstract graph of Model/ShaclDoc.v, has every sh:node object declared, exactly one "
+                "path per property shape and one node shape with one sh:targetClass per shape "
+                "(C05_shacl_node_objects_declared, C05_shacl_one_path, C05_shacl_node_shapes_iff, C05_shacl_run).  Tied "
+                "to /repo: ShExC text byte for byte; the EXTRACTED recogniser and closure checks run on every real "
+                "text; every real SHACL document is compared with the model's graph by isomorphism.",
+        "design": "DESIGN.md sections 0a, 6, 11 (C05)",
+        "note": TB + "Known findings, each refuted in Coq: C05-F1 (custom shapes_namespace: dangling references, pinned "
+                "by golden files; C05_custom_namespace_refuted), C05-F2 (shared local names: one label twice; "
+                "C05_shared_local_name_refuted), C05-F3 (a parsed prefix already in use is declared twice; "
+                "C05_parsed_prefix_collision_rejected, Spec level).  The random prefix fallback and prefixes adopted from "
+                "rdflib-parsed input are oracle-only; the theorems speak of class-mode runs (shape-map texts are "
+                "corresponded and judged by the oracle).  Trusted: the Spec recogniser (a subset of the grammar).",
+        "technique": "Coq: lexer + parser automaton compositional over ++, token lemmas, closure invariant of the "
+                     "cleaning loop, input-level discharge; byte-exact correspondence; extracted-Spec oracle on real output",
     },
     "C06": {
-        "text": "Machine-checked proofs (closed under the global context; no fuel or length bound) about an executable "
-                "Gallina model of the N-Triples reader (tokenizer with its find-based end-of-token arithmetic, token "
-                "tuning, literal typing, both line readers, error counter), with its dispatch characters, markers and "
-                "tables regenerated from the source: for every valid triple and layout of C06_dom reading the rendered "
-                "line yields exactly the kinded triple, zero error lines, no exception and no hang (C06_partial), the "
-                "same for whole documents in order (C06_document_partial), the reader always terminates "
-                "(C06_terminates), and C06_dom is exactly 'no root cause present' (C06_dom_is_no_root_cause).  Tied to "
-                "/repo by bounded-exhaustive correspondence: every lexical form of <= 3 (thorough: <= 4) symbols over "
-                "the adversarial alphabet x suffix forms x separator layouts x dot / comment variants x subjects "
-                "(quick 896 844 lines, thorough 10.4 M), every real call under SIGALRM, the abstract triple as oracle "
-                "and rdflib's parser validating the generator.",
-        "design": "DESIGN.md sections 0a, 7 (C06), 11",
-        "note": "The full property is false on the current reader: eight root causes (findings C06-F1..F8, each a Gallina "
-                "predicate with a refuted lemma and a pinned line); C06_dom excludes exactly those.  Two hangs / wrong "
-                "typings were repaired earlier (C06-X-de802c9, C06-X-569e07d); three further repairs are in "
-                "preparation.  Lexical forms are not compared (the property does not ask for them).",
-        "technique": "executable Gallina model of the reader; induction over items/characters; bounded-exhaustive "
+        "text": "Coq theorems (no fuel or length bound) about an executable model of the N-Triples reader that carries "
+                "BOTH texts of the tokeniser and of decide_literal_type and follows flags regenerated from /repo "
+                "(nt_fixed_tok, nt_fixed_dlt): for every valid statement and layout of C06_dom_cur reading the rendered "
+                "line yields exactly the kinded triple, zero error lines, no exception and no hang (C06_partial, "
+                "C06_terminates), whole documents in order (C06_document_partial), the domain is exactly 'no root cause "
+                "present' (C06_dom_is_no_root_cause), and the repairs only enlarged it (C06_repairs_enlarge_domain).  "
+                "Tied to /repo by bounded-exhaustive correspondence: every lexical form of <= 3 (thorough <= 4) symbols "
+                "of an adversarial alphabet x suffixes x separator layouts x dot / comment variants x subjects (quick "
+                "896 852 evaluations), every real call under SIGALRM, the abstract triple as oracle, rdflib's parser "
+                "validating the generator.",
+        "design": "DESIGN.md sections 0a, 6, 11 (C06)",
+        "note": TB + "After ten repairs in /repo (C06-X-de802c9, C06-X-569e07d, C06-F1 ... C06-F8 by 9171edc, 6538a5e, "
+                "0a5a576; the witnesses C06_F1_refuted ... C06_F8_refuted speak of the old text) one root cause is left: "
+                "C06-F7r, known ('_:b.#comment': C06_F7_refuted_all_repairs), hence C06_full_refuted.  Lexical forms "
+                "are not compared (the property does not ask for them).",
+        "technique": "executable Gallina model of the reader; induction over items / characters; bounded-exhaustive "
                      "differential correspondence; Gallina domain classifier evaluated by the model binary",
     },
     "C07": {
-        "text": "Machine-checked proofs (14 theorems, closed under the global context) about an executable Gallina model "
-                "of the streaming Turtle reader: the subject/predicate/object state machine persisted across lines "
-                "yields exactly the triples of the statement groups for ANY cut of the token sequence into lines "
-                "(C07_T1, unbounded); the tokenizer returns exactly the tokens of a cleaned dialect line and never "
-                "raises or hangs (C07_T2); prefix/base expansion and literal typing give the spec's node, IRI, label or "
-                "datatype (C07_T4); cleaning removes exactly the comment on the proved line shapes (C07_T3_*); "
-                "end to end, reading the rendered TEXT of any document and layout of C07_partial_dom yields its "
-                "semantics (C07_partial); the tested out-of-dialect escapes raise (C07_reject).  ~35 reader constants "
-                "are regenerated from the source.  Tied to /repo by correspondence with the real reader on every "
-                "generated document (all 3^gaps layouts / 2^gaps break placements of small documents), with the "
-                "abstract triples as oracle and rdflib's Turtle parser validating the generator.",
-        "design": "DESIGN.md sections 0a, 7 (C07), 11",
-        "note": "The full property is false on the current reader: 17 known findings (F1-F13 expansion / typing / comment "
-                "scan, R1-R4 missing rejections), each with a refuted lemma and a pinned reproducer; C07_dom excludes "
-                "exactly those.  Lexical forms are not compared; untyped numerics other than [+-]digits[.digits] give the "
-                "explicit outcome 'unmodelled'.  Open: T3 for a line holding both a string literal and a comment.",
+        "text": "Coq theorems about an executable model of the streaming Turtle reader: the state machine persisted "
+                "across lines yields exactly the triples of the statement groups for ANY cut of the token sequence into "
+                "lines (C07_T1); the tokeniser returns exactly the tokens of a cleaned dialect line (C07_T2); prefix / "
+                "base expansion and literal typing give the spec's node, IRI, label or datatype (C07_T4, "
+                "C07_T4_literal); cleaning removes exactly the comment, whatever it contains (C07_T3_plain, "
+                "C07_T3_comment); and the composition: for EVERY document of the dialect inside C07_dom and EVERY layout "
+                "(line breaks at any token boundary, tabs, comments) reading the TEXT yields the document's triples in "
+                "order, raises nothing, does not hang and passes the end-of-input check (theorem C07); the tested "
+                "escapes raise (C07_reject).  Tied to /repo by correspondence on every generated document (ALL 3^gaps "
+                "layouts / 2^gaps break placements of small documents, 47 023 per quick run), abstract triples as "
+                "oracle, rdflib's Turtle parser validating the generator.",
+        "design": "DESIGN.md sections 0a, 6, 11 (C07)",
+        "note": TB + "Known findings, each with a refuted lemma: C07-F1, C07-F2, C07-F6, C07-F13 (base / prefix "
+                "resolution, custom-prefixed datatypes) and C07-R2, C07-R3, C07-R4 (out-of-dialect input accepted "
+                "silently); C07_dom excludes exactly the first four.  Nine repairs in /repo (C07-X-b878913, -db95fdd, "
+                "-74ab28b, -3b3f82c, -466698d, -1ba9679, -8416f2b, -e84df11, C07-X-0a5a576) with regression examples.  "
+                "Lexical forms are not compared; untyped numerics outside a stated syntax are 'unmodelled'.",
         "technique": "executable Gallina model of the reader; induction over token streams and line cuts; differential "
                      "correspondence bounded-exhaustive over layouts",
     },
     "C08": {
-        "text": "Machine-checked proofs (16 theorems, closed under the global context) about an executable model of the "
-                "plumbing that turns a source into the two triple streams of the two passes, with the format x "
-                "compression x source dispatch, line-reader chain and zip guard generated from the AST: for "
-                "line-compositional readers ANY partition of the lines into files / zip members / archives and any "
-                "documented compression gives the stream of the single raw string (C08_partition_invisible*; the reader "
-                "hypotheses are discharged for TSV), both passes of line channels see the same list "
-                "(C08_both_passes_same), rdflib's per-pass permutation and blank-node renaming are invisible when no "
-                "blank node is an instance or class (C08_renamings_invisible_partial, composed with C09), every "
-                "accepted combination reaches the expected yielder (C08_dispatch_total), and the TSV channel reads the "
-                "NT semantics (C08_tsv_reads_nt_semantics).  Tied to /repo by a metamorphic oracle over 34 channels per "
-                "graph, stream correspondence with the real reader plugged in, exhaustive dispatch and line-reader "
-                "correspondence.",
-        "design": "DESIGN.md sections 0a, 7 (C08), 11",
-        "note": "Hypotheses: the N-Triples reader's line-compositionality is C06's; codecs are identities (monitored); "
-                "rdflib delivers a permutation up to injective renaming (monitored).  Findings C08-F1..F5.  TURTLE_ITER "
-                "is corresponded but has no partition theorem (prefix state).",
-        "technique": "executable Gallina model with table-driven dispatch from Consts.v, readers and rdflib as Section "
-                     "variables / oracles; metamorphic oracle + stream and dispatch correspondence",
+        "text": "Coq theorems about an executable model of the plumbing that turns a source into the two triple streams "
+                "of the two passes (dispatch tables generated from the AST): ANY partition of the lines into files / zip "
+                "members / archives and any documented compression gives the stream of the single raw string -- with no "
+                "hypothesis left for N-Triples (C06's reader plugged in, all lines valid or not: "
+                "C08_channel_independent_nt) and TSV (C08_tsv_channel_independent); both passes see the same stream "
+                "(C08_both_passes_same); rdflib's per-pass permutation and blank-node renamings are invisible when no "
+                "blank node is an instance or class (C08_rdflib_counts_invariant, composed with C09); every accepted "
+                "combination reaches the documented yielder (C08_dispatch_total); rdflib channels type literals as the "
+                "N-Triples reader does (C08_rdflib_literal_typing); from the TEXT to the shapes for N-Triples, TSV and "
+                "TURTLE_ITER (C08_nt_text_to_graph, C08_turtle_iter_channel_is_C07, C08_nt_vs_turtle_iter_permuted).  "
+                "Tied to /repo by a metamorphic oracle over 41 channels per graph, stream correspondence with the real "
+                "readers, exhaustive dispatch and line-reader correspondence.",
+        "design": "DESIGN.md sections 0a, 6, 11 (C08)",
+        "note": TB + "Hypotheses monitored on every case: codecs are identities; rdflib delivers a permutation up to an "
+                "injective renaming.  Known: C08-F2 (blank-node instances on re-parsed channels; "
+                "C08_bnode_relabel_refuted), C08-F4 (URL source with a streaming format; "
+                "C08_dispatch_url_format_refuted).  Several Turtle files are not a partition of one document "
+                "(C08_turtle_iter_partition_refuted, by design).  Fixed in /repo: C08-X-b46dc4c, C08-X-f392807, "
+                "C08-X-875de04.",
+        "technique": "executable Gallina model with table-driven dispatch from Consts.v, reader models plugged in, rdflib "
+                     "as oracle arguments; metamorphic oracle + stream and dispatch correspondence",
     },
     "C09": {
-        "text": "Machine-checked proofs for ALL graphs: the declarative counts occ/class_count are invariant under "
-                "permutation of the statements; without a cap the tracker's instance dictionary of a permuted document "
-                "has the same instances with permuted class lists; hence every number of the class profile and (with "
-                "remove_empty_shapes off) the shape set, instance counts and constraint key sets of the whole run are "
-                "the same for g and any permutation of g (Props/C09.v, closed under the global context).  Equality of the "
-                "CHOSEN constraints under ties is refuted by two witnesses (findings C09-F1, C09-F2).  Tied to /repo by "
-                "the byte-exact correspondence and by a metamorphic oracle on pairs of real runs (random and "
-                "exhaustive permutations, blank-node relabelling, IRI stems included).",
-        "design": "DESIGN.md sections 0a, 7 (C09), 11",
-        "note": "Blank-node renaming is checked by the oracle only (no theorem: labels enter shape names and the "
-                "IRI/BNode string comparisons); remove_empty_shapes on and the choice among tied candidates are outside "
-                "the proved statement.  Trusted base as C01.",
+        "text": "Coq theorems for ALL graphs: the declarative counts are invariant under permutation of the statements; "
+                "the tracker's dictionary of a permuted document has the same instances with permuted class lists; hence "
+                "every number of the class profile and the shape set, header counts and constraint key sets of the "
+                "whole run are those of any permutation, for any setting of remove_empty_shapes and with no success "
+                "hypothesis (C09_profile_permutation_invariant, C09_keys_permutation_invariant, "
+                "C09_keys_permutation_invariant_valid_any); an injective renaming of blank nodes that are not classes "
+                "commutes with the tracker, leaves every count unchanged and -- empty shapes kept, both runs succeeding -- "
+                "gives the same shapes, names, header counts and keys in the same order (C09_track_rename, "
+                "C09_rename_counts, C09_keys_rename_invariant).  Tied to "
+                "/repo by the byte-exact correspondence and a metamorphic oracle on pairs of real runs (random and "
+                "exhaustive permutations, relabelling, IRI stems included).",
+        "design": "DESIGN.md sections 0a, 6, 11 (C09)",
+        "note": TB + "Equality of the CHOSEN constraints under ties is false: C09_reference_tie_refuted, "
+                "C09_cardinality_tie_refuted (findings C09-F1, C09-F2, known); in the absence of ties it is checked by "
+                "the oracle only (no theorem).  A blank-node class breaks the renaming statement "
+                "(C09_rename_bnode_class_refuted).",
         "technique": "Coq proof (Permutation induction, set characterisation of the tracker, congruence of occ in the "
                      "instance dictionary) composed with P1 and the key theorem + metamorphic differential runs",
     },
     "C10": {
-        "text": "Machine-checked proof (Coq 8.16.1, closed) that, for every graph and target specification of C10_dom "
-                "written as class names (full / <bracketed> / prefixed, list or file) or a shape map (fixed or JSON "
-                "syntax; node, {FOCUS p o}, {s p FOCUS}, SPARQL) or both, the model of sheXer's parsers and instance "
-                "trackers yields a dictionary holding key S for node n iff the Spec denotes n for S, with exact "
-                "multiplicities, nothing else, and rdf:type ordinary under a custom instantiation property; 17 parser "
-                "constants regenerated from /repo; differential run of model vs real tracker on generated cases plus an "
-                "independent Python oracle at dictionary and text level.",
-        "design": "DESIGN.md sections 0a, 7 (C10), 11",
-        "note": "Trusted: Coq kernel, gen_consts.py, extraction (vm_compute cross-checked), rdflib (parse, FOCUS/SPARQL "
-                "evaluation and blank-node ids are oracle arguments, monitored), NT reader = abstract triples.  Off "
-                "C10_dom: findings C10-F1..F6 (_refuted lemmas, pinned reproducers).  Layout variants: check only.",
-        "technique": "Coq proofs by induction over triples/items plus string lemmas (parse o render); extracted-model "
+        "text": "Coq theorems: for every graph and target specification of C10_dom written as class names (full / "
+                "bracketed / prefixed, list or file) or a shape map (fixed or JSON syntax; node, {FOCUS p o}, "
+                "{s p FOCUS}, SPARQL with rdflib's answer as an oracle argument) or both, the model of sheXer's parsers "
+                "and instance trackers succeeds and its dictionary holds key S for node n exactly when the Spec denotes "
+                "n for S, nothing else, each once on documents without repeated statements, a label never repeated, no "
+                "literal (C10_instances_denote_partial, C10_only_denoted_partial, C10_each_once_partial, "
+                "C10_labels_once); rdf:type is ordinary under a custom instantiation property (C10_tau_ordinary).  Parser "
+                "constants regenerated from /repo.  Tied to /repo by a differential run of model vs real constructor, "
+                "tracker and shex_graph plus an independent Python oracle at dictionary and text level.",
+        "design": "DESIGN.md sections 0a, 6, 11 (C10)",
+        "note": TB + "rdflib's parse, FOCUS / SPARQL evaluation and blank-node ids are oracle arguments (monitored).  "
+                "Known, each refuted in Coq: C10-F1 (blank node keyed by rdflib's id), C10-F5, C10-F6, C10-F7, C10-F8, "
+                "C10-F9.  Fixed in /repo: C10-X-72d68cb, C10-X-cf40ad9, C10-X-9a400c9 (C10_prefixed_label_fixed, "
+                "C10_at_in_iri_fixed, C10_repeated_answer_fixed).",
+        "technique": "Coq proofs by induction over triples / items plus string lemmas (parse o render); extracted-model "
                      "correspondence; Spec-level Python oracle with figure recomputation",
     },
     "C11": {
-        "text": "Machine-checked proof (closed under the global context) that for every well-formed statement -- kinds "
-                "IRI, BNode, NONLITERAL, shape reference, datatype; instantiation constraints of any cardinality and "
-                "direction; all {k>=1}, +, *, ? -- the model of the SHACL serialiser emits exactly the encoding of what "
-                "the model of the ShExC serialiser prints (C11_views_agree, C11_read_back, C11_shapes_agree: one node "
-                "shape per shape, same IRI, sh:targetClass = class, one property shape per constraint, in order; "
-                "C11_cardinality_table), with the node-kind table, SHACL vocabulary, cardinality tables and the "
-                "serialiser's helper-call sequences regenerated from shacl_serializer.py on every run.  Tied to /repo by "
-                "per-line correspondence of both views against one real Shaper's two outputs and by a property-text "
-                "oracle (rdflib + ShExC canonicaliser), plus a complete grid of synthetic statements.",
-        "design": "DESIGN.md sections 0a, 7 (C11), 11",
-        "note": "Conditions: http(s) predicates and class values, a sane namespaces dict, no OR statements, "
-                "detect_minimal_iri off.  Four defects found this way were repaired in /repo (C11-X-3370abe-*, "
-                "C11-X-48b7fcb-*); their reproducers are regression cases.  Trusted base as C01 + rdflib's Turtle parser.",
+        "text": "Coq theorems: for every statement of C11_dom -- kinds IRI, BNode, NONLITERAL, shape reference, datatype; "
+                "instantiation constraints of any cardinality and direction; all {k>=1}, +, *, ?; every http(s) "
+                "predicate; every dictionary with distinct readable prefixes -- the model of the SHACL serialiser emits "
+                "exactly the encoding of what the model of the ShExC serialiser prints and decodes back to it "
+                "(C11_views_agree, C11_read_back); one node shape per shape, same IRI, sh:targetClass = class, one "
+                "property shape per constraint, in order (C11_shapes_agree); C11_cardinality_table for all k.  The "
+                "node-kind table, SHACL vocabulary, cardinality tables and the serialiser's helper-call sequences are "
+                "regenerated from shacl_serializer.py on every run.  Tied to /repo by per-line correspondence of both "
+                "views against one real Shaper's two outputs, whole-document isomorphism with the model's SHACL graph, a "
+                "property-text oracle (rdflib + ShExC canonicaliser) and a complete grid of synthetic statements.",
+        "design": "DESIGN.md sections 0a, 6, 11 (C11)",
+        "note": TB + "Conditions: http(s) predicates and class values, no OR statements (C11_dot_macro_disagrees), "
+                "detect_minimal_iri off (sh:pattern is C05_shacl_any_detect).  No known finding.  Fixed in /repo: "
+                "C11-X-3370abe-bnode, C11-X-3370abe-nonliteral, C11-X-48b7fcb-cardinality, C11-X-48b7fcb-inverse "
+                "(regression cases under corpus/C11).",
         "technique": "Gallina models of both serialisers over one statement; case analysis on kind x cardinality x "
                      "direction; string lemmas for the IRI print/read round trip; differential check",
     },
     "C12": {
-        "text": "Machine-checked proofs for ALL profiles and configurations: with thr1 <= thr2 (CPython binary64 "
-                "comparison, class sizes < 2^53; also exact rationals) every shape and key present at thr2 is present at "
-                "thr1 (remove_empty_shapes off; on, on the domain where no reference points to an empty shape), every "
-                "figure is a profile entry independent of the threshold, and the threshold reaches the pipeline only "
-                "through the shexing stage (Props/C12.v).  Tied to /repo by the correspondence of the extracted model and "
-                "by a metamorphic oracle over fresh real Shapers at all ordered pairs of a k/n threshold grid.",
-        "design": "DESIGN.md sections 0a, 7 (C12), 11",
-        "note": "Trusted base as C01.  Refuted and recorded: the figure of the merged NONLITERAL alternative changes "
-                "with the threshold (C12-F1); a reference to a shape that ends up empty is deleted outright "
-                "(C12_remove_key_refuted; needs a shape-map label without triples).",
-        "technique": "Coq proof (transitivity of the binary64 order proved from a software model of IEEE division; "
-                     "key-set preservation through both merges) + differential correspondence + metamorphic oracle",
+        "text": "Coq theorems for ALL graphs and configurations: with thr1 <= thr2 (CPython binary64 comparison; also "
+                "exact rationals, unbounded) every shape and key present at thr2 is present at thr1 -- empty shapes "
+                "kept (C12_run_keys_monotone, C12_run_keys_monotone_exact) or removed, any target mode, thresholds <= 1, "
+                "no class IRI starting with '%' or '@' (C12_run_keys_monotone_valid) --, every figure is a profile entry independent of the threshold "
+                "(C12_figures_from_profile, C12_figure_threshold_free), the threshold reaches the pipeline only through "
+                "the shexing stage (C12_threshold_only_in_shex); shape-map runs with empty shapes kept: "
+                "C12_map_keys_monotone.  Tied to /repo by the correspondence of the extracted model and a metamorphic "
+                "oracle over fresh real Shapers at all ordered pairs of a k/n threshold grid.",
+        "design": "DESIGN.md sections 0a, 6, 11 (C12)",
+        "note": TB + "Known: C12-F1 (the figure of the merged NONLITERAL alternative changes with the threshold; "
+                "ShexStage_nonliteral_figure_refuted).  Fixed in /repo: C12-F2 (a3b99df: a reference to a shape that "
+                "ended up empty was deleted outright; C12_remove_key_run_refuted for the old order, "
+                "C12_remove_key_run_fixed).  Shape-map runs with remove_empty_shapes on: oracle only.",
+        "technique": "Coq proof (transitivity of the binary64 order from a software model of IEEE division; key-set "
+                     "preservation through both merges) + differential correspondence + metamorphic oracle",
     },
     "C13": {
-        "text": "Machine-checked equations for ALL profiles/graphs: disable_comments, allow_opt_cardinality, "
-                "disable_exact_cardinality and all_instances_are_compliant_mode change the result of the shexing stage "
-                "exactly by mapping drop_comments / ?->* / {k>1}->+ / the per-statement relaxation over the statements "
-                "(errors coincide); disable_or_statements=False only replaces merged statements by disjunctions of the "
-                "same alternatives; instances_report_mode and the namespaces dictionary never change the shapes "
-                "(Props/C13.v).  Tied to /repo by the byte-exact correspondence and by a one-factor-at-a-time "
-                "metamorphic oracle on real runs, including file vs string output beyond the 5000-line buffer.",
-        "design": "DESIGN.md sections 0a, 7 (C13), 11",
-        "note": "Trusted base as C01.  decimals is rendered by the harness shim (not in the model): checked numerically; "
-                "decimals=0 truncates (finding C13-F1, pinned by a golden file).  The all-compliant equation holds on "
-                "O4_dom (refuted outside: a relaxed statement's comment keeps {3} while the line shows +).",
-        "technique": "Coq proof of commuting equations between two configurations + differential correspondence + "
-                     "pairwise metamorphic oracle",
+        "text": "Coq equations for ALL graphs: disable_comments, allow_opt_cardinality, disable_exact_cardinality and "
+                "all_instances_are_compliant_mode change the shapes exactly by dropping comments / ?->* / {k>1}->+ / the "
+                "per-statement relaxation (C13_run_disable_comments, C13_run_allow_opt_cardinality, "
+                "C13_run_disable_exact_cardinality, C13_run_all_compliant); disable_or_statements=False only replaces "
+                "merged statements by disjunctions of the same alternatives (C13_run_disable_or_statements); "
+                "instances_report_mode and the namespaces dictionary never change the shapes.  On the TEXT and on its "
+                "BYTES: disable_comments removes exactly the comments and instances_report_mode changes only the inside "
+                "of comments (C13_run_shexc_disable_comments_bytes, C13_run_shexc_report_mode_bytes); two namespaces "
+                "dictionaries give documents equal after expansion (C13_text_namespaces).  Tied to /repo by the "
+                "byte-exact correspondence and a one-factor-at-a-time metamorphic oracle on real runs, incl. file vs "
+                "string output beyond the 5000-line buffer.",
+        "design": "DESIGN.md sections 0a, 6, 11 (C13)",
+        "note": TB + "decimals is rendered by the harness shim (not in the model): checked numerically; known: C13-F1 "
+                "(decimals=0 truncates; pinned by a golden file).  The all-compliant equation holds on O4_dom "
+                "(C13_all_compliant_comment_refuted outside).  Fixed in /repo: C13-X-62f08fb.",
+        "technique": "Coq proof of commuting equations between two configurations, lifted to the structured text and to "
+                     "bytes + differential correspondence + pairwise metamorphic oracle",
     },
     "C14": {
-        "text": "Machine-checked proofs for ALL class entries, thresholds and switches: with inverse_paths the direct "
-                "statements, instance count and label of a shape are those of the run without it, and the inverse "
+        "text": "Coq theorems for ALL graphs: with inverse_paths the direct statements, header count and label of every "
+                "shape are those of the run without it -- any target mode, any remove_empty_shapes, thresholds <= 1, no "
+                "class IRI starting with '%' or '@' "
+                "(C14_run_direct_unchanged_valid; C14_run_direct_unchanged with empty shapes kept) -- and the inverse "
                 "statements are exactly what the direct strategy computes from the inverse features, flagged '^' "
-                "(Props/C14.v; premise: fle is a total preorder on the class's probabilities, proved for binary64); the "
-                "profiler's direct features do not depend on the flag (Props/P1.v).  Tied to /repo by the correspondence "
-                "and by a three-run metamorphic oracle (G with, G without, reverse(G) without).",
-        "design": "DESIGN.md sections 0a, 7 (C14), 11",
-        "note": "Trusted base as C01.  The reversed-graph comparison is strict on graphs without blank nodes (blank-node "
-                "subjects of incoming links get no shape references by design).",
-        "technique": "Coq proof (filtering commutes with the stable sort; direct/inverse code paths related by a swap) + "
-                     "differential correspondence + metamorphic oracle",
+                "(C14_inverse_part_binary64); for graphs whose non-typing triples link IRI nodes the inverse features "
+                "are the direct features of the graph with those triples reversed, for counts, the whole profile "
+                "(equal as dictionaries, order included) and, empty shapes kept, the statements "
+                "(C14_occ_inverse_is_reverse, C14_inverse_is_reverse_entries, C14_inverse_is_reverse_statements).  Tied "
+                "to /repo by the correspondence and a three-run metamorphic oracle (G with, G without, reverse(G) "
+                "without).",
+        "design": "DESIGN.md sections 0a, 6, 11 (C14)",
+        "note": TB + "The reversal needs IRI nodes: blank-node subjects of incoming links get no shape references by "
+                "design (C14_keys_inverse_bnode_refuted), the property's own exclusion.  No finding.",
+        "technique": "Coq proof (filtering commutes with the stable sort; direct / inverse code paths related by a swap; "
+                     "reversal of the graph) + differential correspondence + metamorphic oracle",
     },
     "C15": {
-        "text": "Machine-checked proofs (7 theorems, closed under the global context) about an executable model of the "
-                "endpoint path -- result reader, token tuning, per-node cache with its local graph, depth-1 traversal, "
-                "class/selector queries with LIMIT, the tracker's early stop -- with the endpoint's answer order and "
-                "the set-to-list order as oracle arguments: for all graphs of C15_dom, all modes and both cache settings "
-                "the triples delivered to each pass are, as multisets, the neighbourhoods of the targets "
-                "(C15_triples), the cache never changes what is delivered (C15_cache_same_result), the cached query log "
-                "is a subsequence of the uncached one with no node fetched twice (C15_cache_log_partial), and the "
-                "delivered triples are the restriction of G the local feature pass considers (C15_equals_local_partial; "
-                "equality of the shapes then rests on C09's permutation invariance).  Tied to /repo by exact "
-                "query-sequence and delivered-triple correspondence against an in-process rdflib-backed endpoint and a "
-                "metamorphic oracle endpoint vs local extraction.",
-        "design": "DESIGN.md sections 0a, 7 (C15), 11",
-        "note": "Partial: (c) not for capped target_classes; shapes equality composes with C09 informally.  Six findings "
-                "C15-F1..F6 (F2 inside the property's domain: with inverse paths a statement linking two targets is "
-                "delivered and counted twice).  The HTTP client is replaced by monkey-patching "
-                "shexer.io.sparql.query._query_endpoint_json_result; rdflib evaluates the query text (trusted).",
+        "text": "Coq theorems about an executable model of the endpoint path -- result reader, token tuning, per-node "
+                "cache with its local graph, depth-1 traversal, class / selector queries with LIMIT, the tracker's early "
+                "stop -- with the endpoint's answer order as an oracle argument: for all graphs of C15_dom, all modes "
+                "and both cache settings each pass is delivered exactly the statements touching its targets, each once "
+                "(C15_triples, C15_delivered_once), the cache never changes what is delivered (C15_cache_same_result), "
+                "the cached query log is a subsequence of the uncached one with no node fetched twice "
+                "(C15_cache_log_partial), what is delivered is a permutation of what the local feature pass considers "
+                "(C15_equals_local_partial), targets come in first-occurrence order (C15_targets_first_occurrence).  "
+                "Tied to /repo by exact query-sequence and delivered-triple correspondence against an in-process "
+                "rdflib-backed endpoint and a metamorphic oracle endpoint vs local extraction.",
+        "design": "DESIGN.md sections 0a, 6, 11 (C15)",
+        "note": TB + "Also tools/gen_consts_c15.py (Gen/ConstsC15.v).  Partial: the log statement when pass 1 reads the "
+                "whole stream; equality of the shapes rests on C09 (keys and counts).  Known: C15-F3 (blank nodes "
+                "answered by an endpoint; C15_bnode_refuted), C15-F6 (LIMIT sent once per pass without ORDER BY; "
+                "C15_limit_two_selects_refuted).  Fixed in /repo: C15-X-bc610c7, C15-X-1a7b577, C15-X-49681e3, "
+                "C15-X-9a43704.  The HTTP client is replaced by monkey-patching "
+                "shexer.io.sparql.query._query_endpoint_json_result; rdflib evaluates the query text.",
         "technique": "executable Gallina model with oracle arguments; cache invariant by induction over requests; "
-                     "differential correspondence on exact query/triple sequences; metamorphic oracle",
+                     "differential correspondence on exact query / triple sequences; metamorphic oracle",
     },
     "C16": {
-        "text": "Machine-checked proofs (Coq 8.16.1, closed) that the tracker model with a cap lists per class exactly "
-                "the first min(k,|class|) instances in both target modes (early stop proved harmless), equals the "
-                "uncapped tracker on the restricted document, is the identity for large caps / the source default, and "
-                "that namespaces_to_ignore deletes exactly the direct-child-predicate triples from the feature pass "
-                "only (17 theorems, Props/C16.v); model tied to /repo byte for byte and by two-real-run metamorphic "
-                "oracles, exhaustive over the orderings of <= 5 typing triples.",
-        "design": "DESIGN.md sections 0a, 7 (C16), 11",
-        "note": "Hypotheses: NoDup g, ids_faithful g, tau_ok (off tau_ok: finding C16-F1).  The 'in document order' "
-                "claim is proved as Permutation plus the exact dictionary (C16_cap_dictionary; order witness).  The rest "
-                "of the pipeline is used only through run_shexc2's shape.  Trusted base as C01.",
+        "text": "Coq theorems: the tracker model with a cap lists per class exactly its first min(k,|class|) instances "
+                "in both target modes (C16_cap_firstn, C16_cap_dictionary; the early stop is harmless: "
+                "C16_cap_early_stop), equals the uncapped tracker on the restricted document, hence the whole ShExC "
+                "output equals the extraction whose instance pass reads the restricted document "
+                "(C16_cap_is_restriction_run), all figures of a capped run are exact for the first-k subset "
+                "(C16_cap_figures_exact), a cap not smaller than every class or the source default changes nothing "
+                "(C16_cap_large_id_run, C16_cap_large_is_default); namespaces_to_ignore deletes exactly the "
+                "direct-child-predicate triples from the feature pass only (C16_ns_filter, C16_ns_child_rule, "
+                "C16_ns_nested).  Tied to /repo byte for byte and by two-real-run metamorphic oracles, exhaustive over "
+                "the orderings of <= 5 typing triples.",
+        "design": "DESIGN.md sections 0a, 6, 11 (C16)",
+        "note": TB + "Hypotheses of the first-k statement: NoDup g, ids_faithful g (C16_duplicate_line_witness).  'In "
+                "document order' is proved as Permutation plus the exact dictionary (C16_order_witness).  Fixed in "
+                "/repo: C16-X-0def8b0 (C16_F1_regression).  No known finding.",
         "technique": "induction over the triple stream with a cap-as-filter characterisation, invariant plus pigeonhole "
                      "for the early stop; differential and metamorphic runs",
     },
     "C17": {
-        "text": "Machine-checked proofs (closed under the global context): for ALL well-formed id lists the printed stem "
-                "is a common prefix, ends at ':', '/' or '#', has >= 3 characters, is not a bare scheme and is the "
-                "longest such stem, and no stem is printed only when none is admissible (C17_stem_longest, "
-                "C17_stem_none), independent of instance order; per class the fold computes that stem; for all graphs "
-                "and modes the shape example is an instance of the class and a constraint example is a value of the "
-                "property in that direction on some instance (C17_examples_from_data).  Separators, length bounds and "
-                "the scheme regex are regenerated from the source.  Tied to /repo by bounded-exhaustive function-level "
-                "correspondence (1.2M rows) and end-to-end runs with a brute-force oracle.",
-        "design": "DESIGN.md sections 0a, 7 (C17), 11",
-        "note": "'Neither option changes any constraint' is a run-time metamorphic check, not a theorem.  Finding C17-F3 "
-                "(examples lose their node kind when printed).  Two stem defects repaired in /repo (a83169a, cb32cb4). "
-                "Trusted base as C01.",
+        "text": "Coq theorems: for ALL id lists of C17_dom the printed stem is a common prefix ending at ':', '/' or '#', "
+                "has >= 3 characters, is not a bare scheme and is the longest such stem; none is printed only when none "
+                "is admissible; independent of instance order; per class the fold computes it (C17_stem_longest, "
+                "C17_stem_none, C17_stem_order_independent, C17_class_stem); for all graphs and modes the shape example "
+                "is an instance of the class and a constraint example a value of the property in that direction "
+                "(C17_examples_from_data); and on the printed TEXT: neither option changes a constraint, the text with "
+                "decorations stripped is the plain text, what is printed is that stem / such an example "
+                "(C17_structure_unchanged, C17_text_strip_decor, C17_printed_stem_longest, "
+                "C17_printed_example_from_data).  Tied to /repo by bounded-exhaustive function-level correspondence "
+                "(1.2 M rows), byte-exact decorated texts and end-to-end runs with a brute-force oracle.",
+        "design": "DESIGN.md sections 0a, 6, 11 (C17)",
+        "note": TB + "Known: C17-F3 (examples lose their node kind when printed; C17_F3_as_printed), C17-F4 "
+                "(examples_mode raises on a printed shape without instance; C17_F4_refuted).  Fixed in /repo: "
+                "C17-X-a83169a, C17-X-cb32cb4.  Ids starting with the shape sentinel are outside the domain "
+                "(C17_sentinel_refuted).",
         "technique": "Gallina model + Consts.v + bounded-exhaustive function-level and sampled end-to-end differential "
                      "correspondence + brute-force Spec oracle",
     },
     "C18": {
-        "text": "Machine-checked proofs (closed under the global context) about a Gallina state machine of the Shaper API "
-                "glue -- store of namespace-dictionary objects, memo slots, statement mutation by examples_mode, the "
-                "line buffer flushed every flush_size lines (from Consts.v) to a string or file -- over an abstract "
-                "pipeline: the file sink's content equals the string sink's result and the concatenation of the lines, "
-                "for ANY number of lines, flush size and prior file content (C18_file_eq_string), and for every "
-                "well-formed history of ANY length every call returns or writes exactly what a fresh Shaper with its own "
-                "dictionary copy returns for the call's own arguments (C18_pure, C18_free_pure; shared dictionaries "
-                "included).  Tied to /repo by predicting every output of all 2379 call histories of length <= 3 on "
-                "several configurations (incl. outputs beyond two 5000-line flushes) and pairs of Shapers sharing a "
-                "dictionary, against fresh-Shaper references.",
-        "design": "DESIGN.md sections 0a, 7 (C18), 11",
-        "note": "Four history dependences found this way were repaired in /repo (C18-X-1b070df, -51cea95, -b8215b0, "
-                "-15b8381); their pinned histories are regression cases.  Hypotheses: threshold equality decidable; the "
-                "SHACL serializer ignores example comments (monitored).  Trusted base as C01.",
-        "technique": "Gallina state machine over an abstract pipeline; induction over the history and over the line "
-                     "list; free-instance correspondence with the real Shaper on all histories <= 3",
+        "text": "Coq theorems about a state machine of the Shaper API glue -- store of namespace-dictionary objects, memo "
+                "slots, statement mutation by examples_mode, the line buffer flushed every flush_size lines (from "
+                "Consts.v) to a string or file: the file sink's content equals the string sink's result and the "
+                "concatenation of the lines for ANY number of lines, flush size and prior file content "
+                "(C18_file_eq_string); for every pipeline and every well-formed history of ANY length over any number "
+                "of Shapers every call returns or writes exactly what a fresh Shaper returns for the call's own "
+                "arguments (C18_pure, C18_free_pure); with the concrete tracker, profiler, shexing stage and serialiser "
+                "plugged in every ShExC call is run_shexc of its own arguments and threshold "
+                "(C18_shex_calls_are_run_shexc, C18_threshold_honoured).  Tied to /repo by predicting every output of "
+                "all 2379 call histories of length <= 3 on four configurations (incl. outputs beyond two 5000-line "
+                "flushes) and pairs of Shapers sharing a dictionary, against fresh-Shaper references.",
+        "design": "DESIGN.md sections 0a, 6, 11 (C18)",
+        "note": TB + "SHACL and profile texts stay abstract stages; 'the SHACL serialiser ignores example comments' is "
+                "monitored.  No known finding.  Fixed in /repo: C18-X-1b070df, C18-X-51cea95, C18-X-b8215b0, "
+                "C18-X-15b8381 (C18_former_witnesses).",
+        "technique": "Gallina state machine over an abstract pipeline, instantiated with the concrete one; induction over "
+                     "the history and over the line list; correspondence with the real Shaper on all histories <= 3",
     },
     "C19": {
-        "text": "Machine-checked proofs (closed under the global context) that the places where a result could depend on "
-                "something other than the arguments do not: the shapes prefix is independent of the random oracle "
-                "whenever a priority prefix is free, for all namespace dictionaries (C19_prefix_oracle_independent, "
-                "..._random_iff_all_taken); the two 'shapes to remove' sets give the same result under any iteration "
-                "order (C19_profile/_shape_removal_order_independent); the target-node collection is order-independent "
-                "as a multiset of fetched triples (C19_target_order_partial).  The list of nondeterminism sites is tied "
-                "to the source by an AST scan against corpus/C19/sites.json on every run; every case is run in fresh "
-                "interpreters under 8 / 64 PYTHONHASHSEED values and the ShExC bytes / SHACL isomorphism digests "
-                "compared.",
-        "design": "DESIGN.md sections 0a, 7 (C19), 11",
-        "note": "rdflib's iteration order and blank-node ids are not modelled: any rdflib-sourced input (parsed text or a "
-                "Graph object) is hash-seed dependent (finding C19-F1).  One defect repaired in /repo (C19-X-c9a1e70). "
-                "Trusted: the AST scanner's site patterns.",
+        "text": "Coq theorems that the places where a result could depend on something other than the arguments do not: "
+                "the shapes prefix is independent of the random oracle iff a priority prefix is free, for all "
+                "dictionaries (C19_prefix_oracle_independent, C19_prefix_random_iff_all_taken); the two 'shapes to "
+                "remove' sets give the same result under any iteration order (C19_profile_removal_order_independent, "
+                "C19_shape_removal_order_independent); the pipeline model (tracker, profiler, shexing, serialiser) takes no "
+                "oracle argument at all.  The "
+                "list of nondeterminism sites is tied to the source by an AST scan against corpus/C19/sites.json on "
+                "every run; every case is run in fresh interpreters under 8 / 64 PYTHONHASHSEED values and the ShExC "
+                "bytes / SHACL digests compared.",
+        "design": "DESIGN.md sections 0a, 6, 11 (C19)",
+        "note": TB + "rdflib's iteration order and blank-node ids are not modelled: any rdflib-sourced input is "
+                "hash-seed dependent (C19-F1, known).  Fixed in /repo: C19-X-c9a1e70 (target nodes in a set; "
+                "C19_target_order_refuted documents why).  Also trusted: the AST scanner's site patterns.",
         "technique": "explicit oracle arguments with independence theorems + AST scan of nondeterminism sites + fresh "
                      "interpreters across hash seeds",
     },
     "C20": {
-        "text": "Machine-checked proof (Coq 8.16.1, closed under the global context) that the model of Shaper.__init__'s "
-                "six checks plus the shape-map stage accepts exactly the configurations of the property's reference "
-                "predicate and rejects all others with ValueError (C20_ctor_iff on C20_dom; C20_ctor_accept_sound "
-                "everywhere; C20_call_iff for shex_graph), with the membership lists regenerated from shaper.py on "
-                "every run, and a bounded-exhaustive differential run of the model against the real constructor "
-                "(all 8192 presence patterns, all enum combinations per single source) that ties the model to the code.",
-        "design": "DESIGN.md section 7 (C20)",
-        "note": "Trusted: Coq kernel, gen_consts.py, the extraction/vm_compute evaluation of the model, the dummy "
-                "argument values standing for their presence pattern, rdflib's construction-time behaviour (modelled). "
-                "Off C20_dom the full statement is refuted (C20_full_refuted): findings C20-F1..F3.",
+        "text": "Coq theorem that the model of Shaper.__init__'s checks plus the shape-map stage accepts exactly the "
+                "configurations of the property's reference predicate and rejects all others with ValueError "
+                "(C20_ctor_iff on C20_dom; C20_ctor_accept_sound everywhere; C20_call_iff for shex_graph), with the "
+                "membership lists regenerated from shaper.py on every run, and a bounded-exhaustive differential run of "
+                "the model against the real constructor (all 8192 presence patterns, enum combinations per single "
+                "source, present-but-falsy arguments, call cases as first and second call).",
+        "design": "DESIGN.md sections 0a, 6, 11 (C20)",
+        "note": TB + "Dummy argument values stand for their presence pattern; rdflib's construction-time behaviour is "
+                "modelled as observed.  Off C20_dom the full statement is refuted (C20_full_refuted): C20-F1, C20-F2, "
+                "C20-F3, known (a shape map with a multi-file / URL source, a streaming format or a compressed file "
+                "fails inside rdflib at construction).",
         "technique": "Coq proof (destruct + boolean reflection) over a finite configuration record + exhaustive "
-                     "model/implementation correspondence",
+                     "model / implementation correspondence",
     },
 }
 
